@@ -192,7 +192,7 @@ def task_glue(I, prop, v):
                             head = (['boost_error_level'] if boost else [])
                             segcalls = [n for n in names if n == 'write_segment']
                             rest = [n for n in names if n != 'write_segment']
-                            I.ground(P + '._encode.stage_order', rest == head + tail, witness=repr(names))
+                            I.ground(P + '._encode.stage_order', rest == head + tail, witness=repr(names), kind='sufficient')
                             if rest != head + tail:
                                 return
                             d = dict((n, b) for n, b in log if n != 'write_segment')
@@ -200,14 +200,14 @@ def task_glue(I, prop, v):
                             if boost:
                                 b = d['boost_error_level']
                                 I.ground(P + '._encode.boost_args', b['version'] == v and b['error'] == lvc and
-                                         b['segments'] is st['segs'] and b['eci'] is eci and b['is_sa'] is sa, witness=repr(b))
+                                         b['segments'] is st['segs'] and b['eci'] is eci and b['is_sa'] is sa, witness=repr(b), kind='sufficient')
                             # all segments written (loop exit: k == n) - checked by the loop contract; order of the tail:
                             I.oblige(P + '._encode.all_segments_written', st.get('n_written', 0) == st['segs'].attrs['segments'].length)
                             for n_, b in log:
                                 if n_ == 'write_segment':
                                     I.ground(P + '._encode.write_segment_args', b['ver'] == ver and b['eci'] is eci and
                                              b['ver_range'] == (v if v < 1 else enc.version_range(v)) and b['buff'] is st['buff'],
-                                             witness=repr((b['ver'], b['ver_range'], b['eci'])))
+                                             witness=repr((b['ver'], b['ver_range'], b['eci'])), kind='sufficient')
                                     if b['_index'] is not None:
                                         I.oblige(P + '._encode.write_segment_is_next_segment', b['_index'] == st_index(b))
                             cap_t = d['write_terminator']['capacity']
@@ -219,37 +219,37 @@ def task_glue(I, prop, v):
                             for w in ('write_terminator', 'write_padding_bits', 'write_pad_codewords'):
                                 b = d[w]
                                 I.oblige(P + '._encode.%s_length_is_len_buff' % w, b['length'] == b['_len_at_call'])
-                                I.ground(P + '._encode.%s_buffer' % w, b['buff'] is st['buff'], witness=w)
-                            I.ground(P + '._encode.terminator_ver', d['write_terminator']['ver'] == ver, witness=repr(d['write_terminator']['ver']))
+                                I.ground(P + '._encode.%s_buffer' % w, b['buff'] is st['buff'], witness=w, kind='sufficient')
+                            I.ground(P + '._encode.terminator_ver', d['write_terminator']['ver'] == ver, witness=repr(d['write_terminator']['ver']), kind='sufficient')
                             I.ground(P + '._encode.padding_version', d['write_padding_bits']['version'] == v and
-                                     d['write_pad_codewords']['version'] == v, witness='version')
+                                     d['write_pad_codewords']['version'] == v, witness='version', kind='sufficient')
                             b = d['make_final_message']
-                            I.ground(P + '._encode.final_message_args', b['version'] == v and b['buff'] is st['buff'], witness=repr(b['version']))
+                            I.ground(P + '._encode.final_message_args', b['version'] == v and b['buff'] is st['buff'], witness=repr(b['version']), kind='sufficient')
                             I.oblige(P + '._encode.final_message_level_is_used_level', b['error'] == used)
                             size = iso.symbol_size(v)
                             b = d['make_matrix']
                             I.ground(P + '._encode.matrix_size', b['width'] == size and b['height'] == size and
-                                     b['reserve_regions'] is True and b['add_timing'] is True, witness=repr((b['width'], b['height'])))
+                                     b['reserve_regions'] is True and b['add_timing'] is True, witness=repr((b['width'], b['height'])), kind='sufficient')
                             for w in ('add_finder_patterns', 'add_alignment_patterns'):
                                 b = d[w]
-                                I.ground(P + '._encode.%s_args' % w, b['matrix'] is st['matrix'] and b['width'] == size and b['height'] == size, witness=w)
+                                I.ground(P + '._encode.%s_args' % w, b['matrix'] is st['matrix'] and b['width'] == size and b['height'] == size, witness=w, kind='sufficient')
                             b = d['add_codewords']
-                            I.ground(P + '._encode.add_codewords_args', b['matrix'] is st['matrix'] and b['codewords'] is st['final'] and b['version'] == v, witness='add_codewords')
+                            I.ground(P + '._encode.add_codewords_args', b['matrix'] is st['matrix'] and b['codewords'] is st['final'] and b['version'] == v, witness='add_codewords', kind='sufficient')
                             b = d['find_and_apply_best_mask']
-                            I.ground(P + '._encode.mask_args', b['matrix'] is st['matrix'] and b['width'] == size and b['height'] == size and b['proposed_mask'] is mask, witness=repr(b['proposed_mask']))
+                            I.ground(P + '._encode.mask_args', b['matrix'] is st['matrix'] and b['width'] == size and b['height'] == size and b['proposed_mask'] is mask, witness=repr(b['proposed_mask']), kind='sufficient')
                             b = d['add_format_info']
                             I.ground(P + '._encode.format_info_after_masking_on_masked_matrix', b['matrix'] is st['masked'] and
-                                     b['version'] == v and b['mask_pattern'] is st['mask_out'], witness=repr((b['version'], b['mask_pattern'])))
+                                     b['version'] == v and b['mask_pattern'] is st['mask_out'], witness=repr((b['version'], b['mask_pattern'])), kind='sufficient')
                             I.oblige(P + '._encode.format_info_level_is_used_level', b['error'] == used)
                             b = d['add_version_info']
-                            I.ground(P + '._encode.version_info_args', b['matrix'] is st['masked'] and b['version'] == v, witness=repr(b['version']))
+                            I.ground(P + '._encode.version_info_args', b['matrix'] is st['masked'] and b['version'] == v, witness=repr(b['version']), kind='sufficient')
                             code = val
                             I.ground(P + '._encode.returns_masked_matrix_version_mask_segments', code.matrix is st['masked'] and
-                                     code.version == v and code.mask is st['mask_out'] and code.segments is st['segs'], witness=repr(code.version))
+                                     code.version == v and code.mask is st['mask_out'] and code.segments is st['segs'], witness=repr(code.version), kind='sufficient')
                             I.oblige(P + '._encode.returned_level_is_used_level', code.error == used)
                             hdr = st.get('hdr')
                             if hdr is None:
-                                I.ground(P + '._encode.header_snapshot', False, witness='segment loop not reached')
+                                I.ground(P + '._encode.header_snapshot', False, witness='segment loop not reached', kind='sufficient')
                             elif sa:
                                 num, tot, par = st['sa']
                                 fields = ((iso.MODE_SA, 4), (num, 4), (tot, 4), (par, 8))
